@@ -44,6 +44,18 @@ def aligned_form(e):
     return False
 
 
+def addr_norm(e):
+    """look through `checked_add(a, b).ok_or(..)?` and casts: the address actually peeked"""
+    e = core(e)
+    while True:
+        if e[0] == "call" and e[1].split("::")[-1] in ("ok_or", "ok_or_else") and e[2]:
+            e = core(e[2][0])
+        elif e[0] == "call" and e[1].split("::")[-1] in ("checked_add", "wrapping_add") and len(e[2]) == 2:
+            return ("bin", "Add", core(e[2][0]), core(e[2][1]))
+        else:
+            return e
+
+
 def rule_no_over_read(ctx):
     R = "C17/no-over-read"
     n = 0
@@ -57,7 +69,7 @@ def rule_no_over_read(ctx):
         for bi, t in reads:
             n += 1
             k += 1
-            addr = core(o.call_args(bi)[1])
+            addr = addr_norm(o.call_args(bi)[1])
             key = (b.short, "peek#%d" % k)
             # destination(s) that receive this word
             dests = []
@@ -132,11 +144,59 @@ def rule_args(ctx):
         o = Origin(b)
         loops = b.loops()
         reads = list(b.calls(lambda c: c.is_("nix::sys::ptrace::read")))
-        inloop = [(x, t) for x, t in reads if any(x in body for body in loops.values())]
+        def chunk_loop(x):
+            for hh, body in loops.items():
+                if x in body and any(b.term(y)["k"] == "call" and CalleeView(b.term(y)["callee"]).short == "std::iter::Iterator::next" for y in body):
+                    return True
+            return False
+        inloop = [(x, t) for x, t in reads if chunk_loop(x)]
+        tail = [(x, t) for x, t in reads if not chunk_loop(x)]
+        # tail: every peeked word is copied with matching windows: last[max(S,A)-S .. min(E,A+8)-S] <- word[max(S,A)-A .. min(E,A+8)-A]
+        for bi, t in tail:
+            ims = [(x, o.call_args(x)) for x, t2 in b.calls(lambda c: (c.short or "").split("::")[-1] in ("index_mut", "index")) if witness_path(b, bi, {x})]
+            dst = [a for x, a in ims if any(s_[0] == "call" and s_[1].split("::")[-1] == "into_remainder" for s_ in walk(a[0])) and strip(a[1])[0] == "agg"]
+            srcw = [a for x, a in ims if any(s_[0] == "call" and s_[1].split("::")[-1] == "to_ne_bytes" for s_ in walk(a[0])) and strip(a[1])[0] == "agg"]
+            if len(dst) != 1 or len(srcw) != 1:
+                if aligned_form(addr_norm(o.call_args(bi)[1])):
+                    ctx.unproven(R, ("ptrace", "tail-window"), b.where(bi), "cannot find the destination/source windows of the aligned tail copy")
+                continue
+
+            def leafv(e):
+                if e[0] == "phi" and any(x_[0] == "bin" and x_[1] == "BitAnd" for x_ in e[1]):
+                    return leafv.A
+                if e[0] == "okval" and any(s_[0] == "call" and s_[1].split("::")[-1] == "into_remainder" for s_ in walk(e)):
+                    return leafv.E
+                if e[0] == "okval" and any(s_[0] == "call" and s_[1].split("::")[-1] == "checked_add" for s_ in walk(e)):
+                    return leafv.S
+                return None
+            okw = True
+            rows = 0
+            badrow = None
+            try:
+                for S in (0x1000, 0x1003, 0x1007, 0x0ffd):
+                    for n in (1, 3, 7):
+                        E = S + n
+                        A = S & ~7
+                        while A < E:
+                            leafv.S, leafv.E, leafv.A = S, E, A
+                            ev = ipe.Eval({}, leaf=leafv)
+                            d0, d1 = (ev.val(core(dict(strip(dst[0][1])[3])[k]))[0] for k in ("start", "end"))
+                            s0, s1 = (ev.val(core(dict(strip(srcw[0][1])[3])[k]))[0] for k in ("start", "end"))
+                            fr, to = max(S, A), min(E, A + 8)
+                            rows += 1
+                            if (d0, d1, s0, s1) != (fr - S, to - S, fr - A, to - A):
+                                okw = False
+                                badrow = badrow or (S, E, A, d0, d1, s0, s1)
+                            A += 8
+            except ipe.Unsupported as e:
+                okw = False
+                badrow = ("unsupported", str(e))
+            ctx.check(okw, R, ("ptrace", "tail-window"), b.where(bi), "each aligned tail word is copied with matching windows: dst[max(S,A)-S..min(E,A+8)-S] <- word[max(S,A)-A..min(E,A+8)-A] (%d rows)" % rows,
+                      "tail copy windows do not select the requested bytes: %s" % (badrow,))
         ctx.floor(R, "word-loop PEEKDATA", len(inloop), 1)
         for bi, t in inloop:
             a = o.call_args(bi)
-            addr = core(a[1])
+            addr = addr_norm(a[1])
             okp = a[0] == ("param", 1)
             # addr = src + offset with offset a counter: init 0, += 8 once per iteration
             okc = False
